@@ -45,7 +45,7 @@ def ahas {α : Type} (k : String) (l : List (String × α)) : Bool := (alookup k
 mutual
 /-- JSON equality as draft 4 defines it: numbers by value, arrays position-wise,
     objects as key→value maps regardless of member order. For objects with distinct keys
-    `a ⊆ b ∧ |a| = |b|`. -/
+    `a ⊆ b ∧ |a| = |b|`. (Structural in the first argument, so the kernel can evaluate it.) -/
 def jeq : JVal → JVal → Bool
   | .null, .null => true
   | .bool a, .bool b => a == b
@@ -54,17 +54,17 @@ def jeq : JVal → JVal → Bool
   | .arr a, .arr b => jeqList a b
   | .obj a, .obj b => jeqSub a b && a.length == b.length
   | _, _ => false
+termination_by structural x => x
 def jeqList : List JVal → List JVal → Bool
   | [], [] => true
   | x :: xs, y :: ys => jeq x y && jeqList xs ys
   | _, _ => false
+termination_by structural l => l
 /-- every member of `a` has a `jeq` partner under the same key in `b` -/
 def jeqSub : List (String × JVal) → List (String × JVal) → Bool
   | [], _ => true
-  | (k, v) :: rest, b => jeqMem k v b && jeqSub rest b
-def jeqMem : String → JVal → List (String × JVal) → Bool
-  | _, _, [] => false
-  | k, v, (k', v') :: rest => (k == k' && jeq v v') || jeqMem k v rest
+  | (k, v) :: rest, b => b.any (fun kv => k == kv.1 && jeq v kv.2) && jeqSub rest b
+termination_by structural l => l
 end
 
 end VM
